@@ -53,7 +53,7 @@ for d in sorted(os.listdir(os.path.join(V, "seeded"))):
             r4 = d[3] in "gh"
             r5 = d[3] in "ij"
             r6 = d[3] in "kl"
-            r7 = d[3] in "mn"
+            r7 = d[3] in "mno"
             meta["first_pass"] = {"what": ("checks as committed when the seventh-round changes were delivered (commit e836afd), before the seventh "
                                            "strengthening") if r7 else ("checks as committed when the sixth-round changes were delivered (commit 2cb68a9), before the sixth "
                                            "strengthening") if r6 else ("checks as committed when the fifth-round changes were delivered (commit 06002f0), before the fifth "
